@@ -353,13 +353,20 @@ def sweep_finish(ctx, p):
                       f"{res['details'].get(k, '')[:200]}",
                       {"sweep_key": k, "detail": res["details"].get(k, ""), "config": _SWEEP_CFG[ctx.tier],
                        "how": "harness/c08_sweep.py with {'only': [op_info_name]} regenerates the sample (torch.manual_seed(42))"})
+    for name, status in sorted(res.get("e2e", {}).items()):
+        ctx.case(("e2e", name))
+        if status != "equal":
+            ctx.violation(f"C08:e2e:{name}:{status.split(':')[0]}",
+                          f"torch.onnx.export(dynamo=True) of the module '{name}' (harness/c08_sweep.py end_to_end): {status}",
+                          {"module": name, "status": status, "how": "harness/c08_sweep.py end_to_end()"})
     ctx.case(("sweep",), n=res["ran"])
     ctx.cover(exploration_only=[
         "differential sweep over tests/function_libs/torch_lib/ops_test_data.TESTED_TORCHLIB_OPS (not counted among the obligations)",
         {"runs": res["ran"], "op_dtype_pairs": res["ops"], "by_status": res["by_status"], "truncated": res["truncated"],
          "wall_s": res["wall_s"], "config": _SWEEP_CFG[ctx.tier],
          "mismatches_in_baseline": len([k for k in res["mismatches"] if k in base]), "mismatches_new": len(new),
-         "baseline_examples": sorted(k for k in res["mismatches"] if k in base)[:12]}])
+         "baseline_examples": sorted(k for k in res["mismatches"] if k in base)[:12]},
+        {"end_to_end_export": res.get("e2e", {})}])
 
 
 def run(ctx):
@@ -376,5 +383,12 @@ def run(ctx):
         families(ctx)
     finally:
         sweep_finish(ctx, sw)
+    ctx.cover(not_covered=[
+        "numeric kernels (MatMul/conv/pool/softmax/normalisation, float rounding): only the differential sweep",
+        "multi-axis roll/flip as one statement (proved per axis; multi-axis cases: skeleton + direct oracle)",
+        "squeeze (no dim) and split_with_sizes: model + correspondence + direct oracle, no theorem beyond the operator transcription",
+        "float and complex paths of the modelled functions; dtype promotion rules (e.g. clamp of an int tensor with a float bound, sum of int32)",
+        "registered overloads outside the 36 modelled functions: exploration-grade sweep over the repository's OpInfo table only",
+        "torch.onnx.export(dynamo=True): 8 fixed small modules only (exploration)"])
     if ctx.tier == "thorough":
         ctx.coqchk(["Props.C08"])
